@@ -196,7 +196,7 @@ def install():
     ap.CalculateFeedAndMeat.__init__ = whi
 
 
-def run_pipeline(case):
+def run_pipeline(case, share_opts=False):
     """Run one (country, option vector) through the real three-round pipeline."""
     global CUR
     install()
@@ -206,7 +206,7 @@ def run_pipeline(case):
     tr = Trace(case)
     tr.scratch = env.scratch_dir()
     CUR = tr
-    opts = copy.deepcopy(case["opts"])
+    opts = case["opts"] if share_opts else copy.deepcopy(case["opts"])
     title = "t_" + case["iso"]
     tr.title = title
     t0 = time.time()
